@@ -244,7 +244,6 @@ func nonNilFact(facts []fact, ptr ssa.Value) bool {
 
 // panicExceptions: reviewed constructs (one named construct + reason each).
 var panicExceptions = map[string]string{
-	"index connectionInitiationDelayTimeRanges in (*hub.Hub).getConnectionInitiationDelayTime": "index is the attempt counter, clamped to len-1 by increaseConnectionAttemptCounter; not peer data (needs interval reasoning)",
 	"index mdnsEntries in (*hub.Hub).ReportMdnsEntries$1":                                      "indices are supplied by sort.Slice within [0,len)",
 	"type-assert *tls.Conn in (*hub.Hub).connectFoundService":                                  "value returned by gorilla's wss dial is a *tls.Conn; not peer data",
 }
@@ -468,6 +467,10 @@ func checkC08(p *core.Program, r *core.Report) {
 					// range-loop shape: idx = phi+1 guarded in the loop header by idx < len(base)
 					ok = rangeLoopIndex(in, idx, base)
 				}
+				if !ok {
+					// index produced by a repo function that clamps its result to len(base)-1 (base a package-level table)
+					ok = clampedIndex(p, idx, base)
+				}
 				report(fn, in, "index", nameOf(base), ok, func() string {
 					if ok {
 						return "index within bounds by a dominating guard"
@@ -540,6 +543,12 @@ func checkC08(p *core.Program, r *core.Report) {
 						}
 						report(fn, in, "divide", nameOf(x.Y), false, "integer division by a value that is not a non-zero constant")
 					}
+				}
+			case *ssa.Call:
+				if n := core.CalleeName(&x.Call); n == "math/rand.Intn" || n == "math/rand/v2.IntN" || n == "(*math/rand.Rand).Intn" {
+					arg := x.Call.Args[len(x.Call.Args)-1]
+					ok, why := positiveRange(p, arg)
+					report(fn, in, "rand.Intn", "argument", ok, why)
 				}
 			case *ssa.Panic:
 				if !x.Pos().IsValid() {
@@ -805,4 +814,262 @@ func checkLockOrder(p *core.Program, r *core.Report, R3 string, cg *callgraph.Gr
 	if len(es) == 0 {
 		r.OK(R3, "lock order graph", "", "no nested lock acquisitions")
 	}
+}
+
+// globalOf: v is a load of a package-level variable of the repo.
+func globalOf(v ssa.Value) *ssa.Global {
+	if u, ok := v.(*ssa.UnOp); ok && u.Op == token.MUL {
+		if g, ok := u.X.(*ssa.Global); ok {
+			return g
+		}
+	}
+	return nil
+}
+
+// lenMinusOne: v == len(load g) - 1
+func lenMinusOne(v ssa.Value, g *ssa.Global) bool {
+	bo, ok := v.(*ssa.BinOp)
+	if !ok || bo.Op != token.SUB {
+		return false
+	}
+	if k, isC := intConst(bo.Y); !isC || k != 1 {
+		return false
+	}
+	lx := lenCallOf(bo.X)
+	return lx != nil && globalOf(lx) == g
+}
+
+// boundedByLen: v <= len(g)-1 on every path that produces it (phi operands are judged on their incoming edge).
+func boundedByLen(v ssa.Value, g *ssa.Global, n int64, depth int) bool {
+	if depth > 6 {
+		return false
+	}
+	if k, isC := intConst(v); isC {
+		return k >= 0 && k <= n-1
+	}
+	if lenMinusOne(v, g) {
+		return true
+	}
+	phi, ok := v.(*ssa.Phi)
+	if !ok {
+		return false
+	}
+	for i, e := range phi.Edges {
+		if boundedByLen(e, g, n, depth+1) {
+			continue
+		}
+		// the edge pred -> phi block is the branch on which e was found < / <= len-1
+		pred := phi.Block().Preds[i]
+		okEdge := false
+		check := func(iff *ssa.If, idx int) {
+			cv, truth := core.Truth(iff.Cond, idx)
+			bo, ok := cv.(*ssa.BinOp)
+			if !ok || !samePlace(bo.X, e) || !lenMinusOne(bo.Y, g) {
+				return
+			}
+			switch {
+			case (bo.Op == token.GEQ || bo.Op == token.GTR) && !truth:
+				okEdge = true
+			case (bo.Op == token.LSS || bo.Op == token.LEQ) && truth:
+				okEdge = true
+			}
+		}
+		if iff := core.BlockIf(pred); iff != nil {
+			for idx, sblk := range pred.Succs {
+				if sblk == phi.Block() {
+					check(iff, idx)
+				}
+			}
+		}
+		// or a dominating fact of the predecessor block
+		if !okEdge && len(pred.Instrs) > 0 {
+			for _, f := range dominatingFacts(pred.Instrs[len(pred.Instrs)-1]) {
+				bo, ok := f.cond.(*ssa.BinOp)
+				if ok && samePlace(bo.X, e) && lenMinusOne(bo.Y, g) {
+					if ((bo.Op == token.GEQ || bo.Op == token.GTR) && !f.truth) || ((bo.Op == token.LSS || bo.Op == token.LEQ) && f.truth) {
+						okEdge = true
+					}
+				}
+			}
+		}
+		if !okEdge {
+			return false
+		}
+	}
+	return len(phi.Edges) > 0
+}
+
+// clampedIndex: idx is (an extracted result of) a call of a repo function all of whose
+// returns are bounded by len(table)-1, where base is a load of that package-level table.
+func clampedIndex(p *core.Program, idx, base ssa.Value) bool {
+	g := globalOf(base)
+	if g == nil {
+		return false
+	}
+	elems := globalLen(g)
+	if elems <= 0 {
+		return false
+	}
+	var call *ssa.Call
+	resIdx := 0
+	switch x := idx.(type) {
+	case *ssa.Call:
+		call = x
+	case *ssa.Extract:
+		call, _ = x.Tuple.(*ssa.Call)
+		resIdx = x.Index
+	}
+	if call == nil {
+		return false
+	}
+	callee := call.Call.StaticCallee()
+	if callee == nil || !p.InRepo(callee) || callee.Blocks == nil {
+		return false
+	}
+	ok, any := true, false
+	core.EachInstr(callee, func(in ssa.Instruction) {
+		ret, isRet := in.(*ssa.Return)
+		if !isRet || ret.Block() == callee.Recover || resIdx >= len(ret.Results) {
+			return
+		}
+		any = true
+		if !boundedByLen(core.ResultOf(ret, resIdx), g, elems, 0) {
+			ok = false
+		}
+	})
+	return ok && any
+}
+
+// globalLen: number of elements the package initialiser gives a package-level slice variable (0 if unknown).
+func globalLen(g *ssa.Global) int64 {
+	init := g.Pkg.Func("init")
+	if init == nil {
+		return 0
+	}
+	var n int64
+	core.EachInstr(init, func(in ssa.Instruction) {
+		st, ok := in.(*ssa.Store)
+		if !ok || st.Addr != ssa.Value(g) {
+			return
+		}
+		if sl, ok := st.Val.(*ssa.Slice); ok {
+			if al, ok := sl.X.(*ssa.Alloc); ok {
+				if at, ok := al.Type().(*types.Pointer).Elem().Underlying().(*types.Array); ok {
+					n = at.Len()
+				}
+			}
+		}
+	})
+	return n
+}
+
+// positiveRange: the argument of rand.Intn is max*k - min*k (or max - min) of one element of a package-level
+// table of structs whose initialiser gives every element max > min.
+func positiveRange(p *core.Program, arg ssa.Value) (bool, string) {
+	if k, isC := intConst(arg); isC {
+		if k > 0 {
+			return true, "positive constant"
+		}
+		return false, "rand.Intn is called with a non-positive constant (panics)"
+	}
+	bo, ok := arg.(*ssa.BinOp)
+	if !ok || bo.Op != token.SUB {
+		return false, "the argument of rand.Intn is not provably positive (it panics for values <= 0)"
+	}
+	fieldOfTable := func(v ssa.Value) (string, *ssa.Global) {
+		for i := 0; i < 3; i++ {
+			if m, ok := v.(*ssa.BinOp); ok && m.Op == token.MUL {
+				if k, isC := intConst(m.Y); isC && k > 0 {
+					v = m.X
+					continue
+				}
+			}
+			break
+		}
+		var fv *types.Var
+		var base ssa.Value
+		switch x := v.(type) {
+		case *ssa.Field:
+			fv, base = core.FieldVar(x), x.X
+		case *ssa.UnOp:
+			if fa, ok := x.X.(*ssa.FieldAddr); ok {
+				fv, base = core.FieldVar(fa), fa.X
+			}
+		}
+		if fv == nil {
+			return "", nil
+		}
+		// base: element of the table
+		for i := 0; i < 5 && base != nil; i++ {
+			switch y := base.(type) {
+			case *ssa.Alloc:
+				// local copy of the element
+				var stored ssa.Value
+				n := 0
+				for _, ref := range *y.Referrers() {
+					if st, ok := ref.(*ssa.Store); ok && st.Addr == ssa.Value(y) {
+						stored = st.Val
+						n++
+					}
+				}
+				if n != 1 {
+					return "", nil
+				}
+				base = stored
+				continue
+			case *ssa.UnOp:
+				base = y.X
+				continue
+			case *ssa.IndexAddr:
+				return fv.Name(), globalOf(y.X)
+			case *ssa.Index:
+				return fv.Name(), globalOf(y.X)
+			}
+			break
+		}
+		return "", nil
+	}
+	hiF, g1 := fieldOfTable(bo.X)
+	loF, g2 := fieldOfTable(bo.Y)
+	if g1 == nil || g1 != g2 || hiF == "" || loF == "" {
+		return false, "the argument of rand.Intn is not provably positive (it panics for values <= 0)"
+	}
+	// evaluate the table initialiser
+	init := g1.Pkg.Func("init")
+	vals := map[int64]map[string]int64{}
+	if init != nil {
+		core.EachInstr(init, func(in ssa.Instruction) {
+			st, ok := in.(*ssa.Store)
+			if !ok {
+				return
+			}
+			fa, ok := st.Addr.(*ssa.FieldAddr)
+			if !ok {
+				return
+			}
+			ia, ok := fa.X.(*ssa.IndexAddr)
+			if !ok {
+				return
+			}
+			i, ok1 := intConst(ia.Index)
+			v, ok2 := intConst(st.Val)
+			if ok1 && ok2 {
+				if vals[i] == nil {
+					vals[i] = map[string]int64{}
+				}
+				vals[i][core.FieldVar(fa).Name()] = v
+			}
+		})
+	}
+	n := globalLen(g1)
+	if n == 0 {
+		return false, "table initialiser not understood"
+	}
+	for i := int64(0); i < n; i++ {
+		hi, lo := vals[i][hiF], vals[i][loF] // absent = zero value
+		if hi <= lo {
+			return false, fmt.Sprintf("table %s element %d has %s=%d <= %s=%d: rand.Intn(%s-%s) panics when this delay class is used", g1.Name(), i, hiF, hi, loF, lo, hiF, loF)
+		}
+	}
+	return true, fmt.Sprintf("every element of %s has %s > %s", g1.Name(), hiF, loF)
 }
